@@ -27,10 +27,10 @@ def plan(pid, level, rule, stages, **kw):
 
 plan("C12", "exploration",
      "Exhaustive enumeration: all 65536 (a,b) pairs x all 256 third operands, all 256 inverses, all 256 constants x "
-     "(32 table bytes, 256 table-driven products, 256 GFNI-matrix products), in the default and the GF_LARGE_TABLES build; "
+     "(32 table bytes, 256 table-driven products, 256 GFNI-matrix products), in the default and the GF_LARGE_TABLES build and with the byte-wise table builder that 32-bit / big-endian targets compile; "
      "plus generated (k, rows, coefficient matrix) cases through ec_init_tables_base and the dispatched ec_init_tables. "
      "Non-trivial: both operands non-zero / constant > 1 / at least two coefficients.",
-     lambda tier: [S("C12", 4000), S("C12", 4000, cfg="gflarge")],
+     lambda tier: [S("C12", 4000), S("C12", 4000, cfg="gflarge"), S("C12", 2000, cfg="ecgeneric")],
      exhaustive=True,
      assumptions=["reference: carry-less multiply reduced by 0x11D written from the definition",
                   "software model of GF2P8AFFINEQB (Intel SDM bit order) for the GFNI table"])
